@@ -14,6 +14,10 @@
    - the call at the top of the clone call stack (callNum = 1) runs clone.Secure over the finished clone
      unless keep-secrets is set: requests and attempt responses are scrubbed in place.
 
+   The Context argument is only handed down to the recursive calls; nothing reads it, so the result does not
+   depend on it and the model has no such parameter (the harness calls the real functions under live,
+   cancelled, expired and concurrently cancelled Contexts and expects the one clone).
+
    External behaviour is a Section variable:
    - [deepcopy] is github.com/brunoga/deep.MustCopy on a request / response value;
    - [scrub] is what clone.Secure does to one request / response value (property C17);
